@@ -36,72 +36,8 @@ def run(cx):
     pf = pm.func("parse")
     psl = pm.func("_parse_simple_lines")
 
-    # ---- C05-ROUTE ---------------------------------------------------------------------------
-    r = cx.rule("C05-ROUTE", "only the top-level `while True:` arm feeds loop_body (scope=loop, depth=1, loop_depth=1, main_loop=True); every other top-level statement feeds setup_body with scope=setup, depth=0, loop_depth=0; both lists only grow by extend until the two injections", floor=8)
-    for n in walk_local(pf):
-        if isinstance(n, ast.Call) and isinstance(n.func, ast.Attribute) and isinstance(n.func.value, ast.Name) and n.func.value.id in ("loop_body", "setup_body"):
-            which = n.func.value.id
-            r.check(n.func.attr == "extend", f"parse/{which}.{n.func.attr}", (pm, n), f"`{stmt_key(n)}`: statements must be appended in source order")
-            if n.func.attr != "extend" or not n.args or not isinstance(n.args[0], ast.Call) or call_name(n.args[0]) != "_parse_simple_lines":
-                continue
-            inner = n.args[0]
-            cs = lexical_conds(pm, n)
-            is_main = ("_indent_of(raw) == 0 and RE_WHILE_TRUE.match(text)", True) in cs
-            kw = {k.arg: norm(k.value) for k in inner.keywords}
-            if which == "loop_body":
-                r.check(is_main, "parse/loop_body-only-from-top-level-while-True", (pm, n), f"loop_body is extended under {sorted(cs)}")
-                r.check(kw == {"scope": "'loop'", "depth": "1", "loop_depth": "1", "main_loop": "True"}, "parse/main-loop-scope-arguments", (pm, n), f"main loop parsed with {kw}")
-            else:
-                r.check(not is_main, "parse/setup_body-not-from-main-loop", (pm, n), "the main loop body is routed to setup()")
-                r.check(kw.get("scope") == "'setup'" and kw.get("depth") == "0" and kw.get("loop_depth") == "0" and kw.get("main_loop", "False") == "False", "parse/setup-scope-arguments", (pm, n), f"setup statement parsed with {kw}", sample=f"setup_body.extend(... {kw})")
-    rebinds = [n for n in walk_local(pf) if isinstance(n, ast.Assign) and norm(n.targets[0]) in ("loop_body", "setup_body") and not isinstance(n.value, ast.List)]
-    r.check([norm(x.value) for x in rebinds] == ["lcd_ticks + loop_body", "button_polls + loop_body"], "parse/only-two-prepends-polls-first", (pm, pf), f"rebinding of the statement lists: {[stmt_key(x) for x in rebinds]}; expected the tick injection then the poll injection (polls end up first)")
-    prog = [c for c in walk_local(pf) if isinstance(c, ast.Call) and call_name(c) == "Program"]
-    okp = len(prog) == 1 and norm(kwarg(prog[0], "setup_body") or ast.Constant(0)) == "setup_body" and norm(kwarg(prog[0], "loop_body") or ast.Constant(0)) == "loop_body"
-    r.check(okp, "parse/Program(setup_body, loop_body)", (pm, pf), "Program must receive the two lists unchanged")
-    # statements after the main loop
-    tracks = any(isinstance(n, ast.Name) and n.id in ("seen_main_loop", "main_loop_seen", "after_loop") for n in ast.walk(pf))
-    r.check(tracks, "parse/statements-after-main-loop-routed-to-setup", (pm, pf), "parse() does not remember that the main loop was seen: top-level statements written after `while True:` (never executed by Python) are appended to setup_body and run before the loop; a second `while True:` is merged into the first")
-
-    # ---- C05-BREAK ---------------------------------------------------------------------------
-    r = cx.rule("C05-BREAK", "break is rejected outside loops and at depth 1 of the main loop before a BreakStmt is built; every recursive parser call forwards loop_depth (+1 exactly for while/for bodies) and main_loop; function bodies reset both", floor=10)
-    bs = [c for c in walk_local(psl) if isinstance(c, ast.Call) and call_name(c) == "BreakStmt"]
-    r.check(len(bs) == 1, "break/one-construction-site", (pm, psl), f"{len(bs)} BreakStmt construction sites")
-    for c in bs:
-        st = c
-        while not isinstance(st, ast.stmt):
-            st = pm.parent[st]
-        par = pm.parent[st]
-        sibs = par.body if hasattr(par, "body") else []
-        before = sibs[: sibs.index(st)] if st in sibs else []
-        guards = [norm(s.test) for s in before if isinstance(s, ast.If) and isinstance(s.body[-1], ast.Raise)]
-        r.check("loop_depth <= 0" in guards, "break/rejected-outside-loop", (pm, st), f"guards before BreakStmt(): {guards}")
-        r.check("main_loop and loop_depth == 1" in guards, "break/rejected-at-main-loop-level", (pm, st), f"guards before BreakStmt(): {guards}; `break` could terminate the main loop()")
-        r.check(("line == 'break'", True) in lexical_conds(pm, st), "break/arm", (pm, st), "BreakStmt built outside the `break` arm")
-    # recursion discipline: every call of _parse_simple_lines in the parser module
-    for q, fn in pm.funcs.items():
-        for c in walk_local(fn, include_self=False):
-            if not (isinstance(c, ast.Call) and call_name(c) == "_parse_simple_lines"):
-                continue
-            kw = {k.arg: norm(k.value) for k in c.keywords}
-            if q == "parse":
-                continue
-            if q == "_parse_function":
-                r.check(kw.get("loop_depth") == "0" and kw.get("main_loop") == "False" and kw.get("scope") == "'function'", "recursion/function-body-resets-loop-state", (pm, c), f"function bodies are parsed with {kw}")
-                continue
-            # inside _parse_simple_lines (or one of its closures)
-            assigned_to = None
-            st = c
-            while not isinstance(st, ast.stmt):
-                st = pm.parent[st]
-            if isinstance(st, ast.Assign) and isinstance(st.targets[0], ast.Name):
-                assigned_to = st.targets[0].id
-            in_loop_arm = assigned_to == "loop_body"
-            want_depth = "loop_depth + 1" if in_loop_arm else "loop_depth"
-            r.check(kw.get("loop_depth") == want_depth, f"recursion/{'loop' if in_loop_arm else 'branch'}-body-loop_depth", (pm, c), f"`{stmt_key(st)}` passes loop_depth={kw.get('loop_depth')}; expected {want_depth}", sample=f"{q}: {assigned_to} <- loop_depth={kw.get('loop_depth')}")
-            r.check(kw.get("main_loop") == "main_loop", "recursion/main_loop-forwarded", (pm, c), f"`{stmt_key(st)}` does not forward main_loop (passes {kw.get('main_loop')}): a `break` inside this block would escape the main-loop guard")
-            pos = [norm(a) for a in c.args]
-            r.check(len(pos) >= 4 and pos[2] == "scope" and pos[3] == "depth + 1", "recursion/scope-and-depth", (pm, c), f"nested block parsed with positional {pos}")
+    # ---- C05-ROUTE / C05-BREAK ---------------------------------------------------------------
+    rule_scripts(cx, pm)
 
     # ---- C05-SCOPE ---------------------------------------------------------------------------
     r = cx.rule("C05-SCOPE", "a declaration is global exactly for scope == 'setup' and depth == 0", floor=4)
@@ -267,3 +203,120 @@ def run(cx):
         r.check(f"  {ct_} acc = {ex_};" in lt_ and "static" not in lt_, f"emit/loop-local[{ct_} = {ex_}]-reinitialised-every-pass", (em, em.func("_emit_block")), f"`acc = {ex_}` at the top of the main loop is emitted as `{next((l_.strip() for l_ in lt_.split(chr(10)) if ' acc =' in l_), '?')}`: it must be a plain local initialised on every loop() pass")
     empty = pe.emit_program(setup=[], loop=[])
     r.check("// no setup actions" in empty.text and "// no loop actions" in empty.text, "emit/empty-bodies-still-well-formed", (em, ef), "empty sketch shape changed")
+
+
+
+HEAD_ = ("from Reduino.Actuators import Led\nfrom Reduino.Sensors import Button\nfrom Reduino.Displays import LCD\nfrom Reduino.Utils import sleep\n"
+         "led = Led(13)\nx = 0\n")
+
+
+def _walk_ir(nodes, in_loop=False, path=()):
+    """(node, inside a while/for node?, path of container class names) for every IR node, depth first in source order"""
+    for n in nodes:
+        cn = type(n).__name__
+        yield n, in_loop, path
+        inner_loop = in_loop or cn in ("WhileLoop", "ForRangeLoop")
+        for f in ("body", "try_body", "branches", "handlers", "else_body"):      # source order of the child blocks
+            sub = getattr(n, f, None)
+            if not isinstance(sub, list):
+                continue
+            if f in ("branches", "handlers"):
+                for br in sub:
+                    yield from _walk_ir(list(getattr(br, "body", []) or []), inner_loop, path + (cn,))
+            else:
+                yield from _walk_ir(sub, inner_loop, path + (cn,))
+
+
+def rule_scripts(cx, pm):
+    """the setup/loop split and the break guards decided on whole scripts (partial evaluation of parse()): where each marked
+    statement lands, in which order, what precedes the user statements of the loop, which `break` placements are refused"""
+    from .. import dl
+    r = cx.rule("C05-ROUTE", "scripts through parse(): statements before the top-level `while True:` land in setup_body in source order (also from if/for/try blocks), its body lands in loop_body in source order, function bodies in neither; the loop body starts with exactly one poll per declared button (sorted) followed by exactly one tick per animated display, then the user statements; a `while True:` inside a function is an ordinary loop", floor=8)
+    rb = cx.rule("C05-BREAK", "scripts through parse(): `break` directly in the main loop body, under if/try of the main loop, outside any loop or directly in a function body is refused (ValueError); inside a while/for of setup, of the main loop or of a function it is accepted; in no accepted program is a BreakStmt reachable without passing through a while/for node", floor=14)
+    pf = pm.func("parse")
+
+    def parse(src):
+        try:
+            _it, out = pe.parse_source(src)
+        except dl.Unsupported as e:
+            raise AnalysisError(f"parse() left the evaluable subset: {e}")
+        return out
+
+    def marks(nodes):
+        return [n.ms for n, _l, _p in _walk_ir(nodes) if type(n).__name__ == "Sleep"]
+
+    route = {
+        "straight": (HEAD_ + "sleep(1)\nsleep(2)\nwhile True:\n    sleep(3)\n    sleep(4)\n", [1, 2], [3, 4]),
+        "blocks-before-loop": (HEAD_ + "sleep(1)\nif x > 1:\n    sleep(2)\nelse:\n    sleep(3)\nfor i in range(2):\n    sleep(4)\ntry:\n    sleep(5)\nexcept Exception:\n    sleep(6)\nsleep(7)\nwhile True:\n    sleep(8)\n    if x > 2:\n        sleep(9)\n    sleep(10)\n", [1, 2, 3, 4, 5, 6, 7], [8, 9, 10]),
+        "function-between": (HEAD_ + "sleep(1)\ndef f():\n    sleep(50)\n    while True:\n        sleep(51)\n        break\nsleep(2)\nwhile True:\n    f()\n    sleep(3)\n", [1, 2], [3]),
+        "comments-and-blanks": (HEAD_ + "# prologue\nsleep(1)\n\n# more\nsleep(2)\n\nwhile True:  # main\n    # body\n    sleep(3)\n\n    sleep(4)\n", [1, 2], [3, 4]),
+        "no-main-loop": (HEAD_ + "sleep(1)\nsleep(2)\n", [1, 2], []),
+        "empty-prologue": ("from Reduino.Utils import sleep\nwhile True:\n    sleep(3)\n", [], [3]),
+    }
+    for label, (src, want_setup, want_loop) in route.items():
+        out = parse(src)
+        if out.kind != "return":
+            r.fail(f"route[{label}]/accepted", (pm, pf), f"script `{label}` is rejected with {out.value}")
+            continue
+        got_s, got_l = marks(list(out.value.setup_body)), marks(list(out.value.loop_body))
+        r.check(got_s == want_setup and got_l == want_loop, f"route[{label}]/setup-then-loop-in-source-order", (pm, pf), f"script `{label}`: marked statements in setup_body {got_s} (expected {want_setup}), in loop_body {got_l} (expected {want_loop})")
+    # a statement written after the main loop never runs in Python
+    out = parse(HEAD_ + "sleep(1)\nwhile True:\n    sleep(3)\nsleep(7)\n")
+    if out.kind == "return":
+        r.check(7 not in marks(list(out.value.setup_body)), "parse/statements-after-main-loop-routed-to-setup", (pm, pf), "top-level statements written after `while True:` (never executed by Python) are appended to setup_body and run before the loop; a second `while True:` is merged into the first")
+    else:
+        r.ok("statement after the main loop: rejected")
+    # housekeeping first
+    hk = ("from Reduino.Actuators import Led\nfrom Reduino.Sensors import Button\nfrom Reduino.Displays import LCD\nfrom Reduino.Utils import sleep\nled = Led(13)\n"
+          "def on_b():\n    led.toggle()\ndef on_a():\n    led.on()\nbtn_b = Button(7, on_click=on_b)\nbtn_a = Button(6, on_click=on_a)\nplain = Button(5)\n"
+          "lcd2 = LCD(i2c_addr=0x27)\nlcd1 = LCD(rs=12, en=11, d4=5, d5=4, d6=3, d7=2)\nlcd2.animate('scroll', 0, 'hello', speed_ms=0)\nlcd1.animate('blink', 0, 'x', speed_ms=0)\nlcd2.animate('bounce', 1, 'y', speed_ms=0)\n"
+          "while True:\n    sleep(3)\n    led.off()\n")
+    out = parse(hk)
+    if out.kind != "return":
+        r.fail("route[housekeeping]/accepted", (pm, pf), f"the housekeeping script is rejected with {out.value}")
+    else:
+        heads = [(type(n).__name__, getattr(n, "name", None)) for n in list(out.value.loop_body)]
+        want = [("ButtonPoll", "btn_a"), ("ButtonPoll", "btn_b"), ("ButtonPoll", "plain"), ("LCDTick", "lcd1"), ("LCDTick", "lcd2"), ("Sleep", None), ("LedOff", "led")]
+        r.check(heads == want, "route[housekeeping]/polls-then-ticks-then-user-statements-once-each", (pm, pf), f"loop_body begins {heads}; expected {want}: one poll per declared button (sorted), one tick per animated display (sorted), then the user statements")
+        r.check(not any(t_ in ("ButtonPoll", "LCDTick") for t_, _n in [(type(n).__name__, None) for n, _l, _p in _walk_ir(list(out.value.setup_body))]), "route[housekeeping]/none-in-setup", (pm, pf), "housekeeping nodes were placed in setup_body")
+
+    brk = {
+        "main-loop-level": ("while True:\n    break\n", False),
+        "main-loop-under-if": ("while True:\n    if x > 1:\n        break\n", False),
+        "main-loop-under-elif-else": ("while True:\n    if x > 1:\n        sleep(1)\n    elif x > 0:\n        sleep(2)\n    else:\n        break\n", False),
+        "main-loop-under-try": ("while True:\n    try:\n        break\n    except Exception:\n        sleep(1)\n", False),
+        "main-loop-under-except": ("while True:\n    try:\n        sleep(1)\n    except Exception:\n        break\n", False),
+        "main-loop-after-inner-loop": ("while True:\n    while x < 3:\n        x = x + 1\n    break\n", False),
+        "main-loop-one-line-if": ("while True:\n    if x > 3: break\n    sleep(1)\n", None),
+        "inner-while": ("while True:\n    while x < 3:\n        break\n", True),
+        "inner-for-under-if": ("while True:\n    for i in range(3):\n        if i > 1:\n            break\n", True),
+        "inner-while-under-try": ("while True:\n    while x < 3:\n        try:\n            break\n        except Exception:\n            sleep(1)\n", True),
+        "two-levels": ("while True:\n    for i in range(3):\n        while x < 2:\n            break\n        break\n", True),
+        "setup-level": ("break\nwhile True:\n    sleep(1)\n", False),
+        "setup-under-if": ("if x > 1:\n    break\nwhile True:\n    sleep(1)\n", False),
+        "setup-for": ("for i in range(3):\n    break\nwhile True:\n    sleep(1)\n", True),
+        "setup-while-under-if": ("while x < 3:\n    if x > 1:\n        break\n    x = x + 1\nwhile True:\n    sleep(1)\n", True),
+        "function-level": ("def f():\n    break\nwhile True:\n    f()\n", False),
+        "function-under-if": ("def f():\n    if x > 1:\n        break\nwhile True:\n    f()\n", False),
+        "function-loop": ("def f():\n    for i in range(3):\n        break\nwhile True:\n    f()\n", True),
+        "function-while-true": ("def f():\n    while True:\n        if x > 1:\n            break\n        x = x + 1\nwhile True:\n    f()\n", True),
+        "function-defined-in-main-loop-call": ("def f():\n    while x < 2:\n        break\nwhile True:\n    if x > 1:\n        f()\n", True),
+    }
+    for label, (body, accept) in brk.items():
+        out = parse(HEAD_ + body)
+        if out.kind != "return":
+            rb.check(accept is not True and out.value == "ValueError", f"break[{label}]/{'accepted' if accept else 'refused-with-ValueError'}", (pm, pf), f"`{body.strip().splitlines()[0]} ...` ({label}): parse() raises {out.value}" + ("; a break inside a nested loop is valid" if accept else "; a refusal must be a ValueError"))
+            continue
+        prog = out.value
+        stray = []
+        for where, nodes in [("setup_body", list(prog.setup_body)), ("loop_body", list(prog.loop_body))] + [(f"function {f_.name}", list(f_.body)) for f_ in (prog.functions or [])]:
+            for n, in_loop, path in _walk_ir(nodes):
+                if type(n).__name__ == "BreakStmt" and not in_loop:
+                    stray.append(f"{where}{'/' + '/'.join(path) if path else ''}")
+        n_breaks = sum(1 for where, nodes in [("s", list(prog.setup_body)), ("l", list(prog.loop_body))] + [("f", list(f_.body)) for f_ in (prog.functions or [])] for n, _l, _p in _walk_ir(nodes) if type(n).__name__ == "BreakStmt")
+        rb.check(not stray, f"break[{label}]/no-break-outside-a-loop-node", (pm, pf), f"script `{label}` is accepted with a BreakStmt at {stray}: it is not inside any while/for node, so in the firmware it would leave loop() (or not compile)")
+        if accept is True:
+            rb.check(n_breaks >= 1, f"break[{label}]/kept", (pm, pf), f"script `{label}`: the break inside a nested loop disappeared from the IR")
+        elif accept is False:
+            rb.fail(f"break[{label}]/refused-with-ValueError", (pm, pf), f"script `{label}` is accepted ({n_breaks} BreakStmt node(s)); a `break` that is not inside a nested while/for must be refused") if True else None
+    return r
